@@ -168,7 +168,9 @@ def run_property(prop, tier="quick", replay=None, repo=None, quiet=False, facts=
         for rule, reason in broken:
             emit("ANALYSIS-BROKEN property=%s rule=%s reason=%s" % (prop, rule, reason))
         rc = 2
-    if violations and rc == 0:
+    # a failing obligation is only ever emitted for a construct its rule fully understood, so it stands on its own
+    # even when another instance/rule could not be analysed: violations take precedence over exit 2
+    if violations:
         os.makedirs(os.path.join(VERIF, "findings", prop), exist_ok=True)
         for v in violations:
             h = hashlib.sha1(v.ident().encode()).hexdigest()[:12]
@@ -179,9 +181,6 @@ def run_property(prop, tier="quick", replay=None, repo=None, quiet=False, facts=
             emit("VIOLATION property=%s replay=%s" % (prop, rp))
             emit("  %s:%s rule=%s instance=%s: %s" % (v.file, v.line, v.rule, v.key, v.why))
         rc = 1
-    elif violations:
-        for v in violations:
-            emit("  (suppressed while analysis is broken) %s:%s rule=%s instance=%s: %s" % (v.file, v.line, v.rule, v.key, v.why))
 
     # ---- evidence
     if write_evidence and not replay and not os.environ.get("VERIF_SEEDRUN"):
